@@ -5,7 +5,8 @@
 
    The server is the list of its answers to the successive requests of one query (type [reply]
    from Model.v, shared vocabulary only).  The specification says, for such a list,
-     - which rows the application must see, in which order      [spec_rows]
+     - which rows the application must see, in which order, and decoded with which
+       result metadata                                         [spec_rows]
      - how the iteration must end                               [spec_end]
      - which paging state each request must carry               [spec_states]
    [auto] = false is manual paging (the caller supplied a page state): one page only. *)
@@ -14,63 +15,77 @@ From GocqlV Require Import Lib.Base C15.Model.
 Set Implicit Arguments.
 
 Section Spec.
-Variable R : Type.
+Variable R M : Type.
 
-(* rows: those of every page in order, up to and including the first page that is not followed by
-   another one; an answer that is not a page ends the rows (UNPREPARED is not an answer to the page
-   request at all: the request is repeated) *)
-Fixpoint spec_rows (auto : bool) (s : list (reply R)) : list R :=
+Notation reply := (reply R M).
+
+(* the metadata a page must be decoded with: the server's own, unless the request told the server
+   to leave it out (skip_metadata, protocol section 4.1.4: "the client already has it from the
+   PREPARE result") -- then the prepared statement's *)
+Definition spec_meta (mm : meta_mode M) (mt : M) : M :=
+  match mm with UsePrepared pm => pm | UseServer => mt end.
+
+(* rows: those of every page in order, each with the metadata its page is decoded with, up to and
+   including the first page that is not followed by another one; an answer that is not a page ends
+   the rows, except that UNPREPARED is not an answer to the page request at all (the request is
+   repeated) and neither is an error while the retry policy still has retries left for this page
+   ([n] per page, [left] for the current one) *)
+Fixpoint spec_rows (auto : bool) (mm : meta_mode M) (n left : nat) (s : list reply) : list (R * M) :=
   match s with
-  | RPage rows more _ :: t => rows ++ (if more && auto then spec_rows auto t else [])
-  | RUnprep _ :: t => spec_rows auto t
+  | RPage rows more _ mt :: t =>
+      map (fun r => (r, spec_meta mm mt)) rows ++ (if more && auto then spec_rows auto mm n n t else [])
+  | RUnprep _ _ :: t => spec_rows auto mm n left t
+  | RErr _ _ _ :: t => match left with S l => spec_rows auto mm n l t | O => [] end
   | _ => []
   end.
 
 (* the end: None = normal end of the result set, Some e = the iteration's error *)
-Fixpoint spec_end (auto : bool) (s : list (reply R)) : option Z :=
+Fixpoint spec_end (auto : bool) (n left : nat) (s : list reply) : option Z :=
   match s with
   | [] => Some E_noreply                              (* a request that is never answered fails *)
-  | RPage _ more _ :: t => if more && auto then spec_end auto t else None
-  | RUnprep _ :: t => spec_end auto t
-  | RErr _ e :: _ => Some e
-  | RVoid _ :: _ => None
+  | RPage _ more _ _ :: t => if more && auto then spec_end auto n n t else None
+  | RUnprep _ _ :: t => spec_end auto n left t
+  | RErr _ _ e :: t => match left with S l => spec_end auto n l t | O => Some e end
+  | RVoid _ _ :: _ => None
   end.
 
 (* the paging state of every request, in order: the caller's for the first (empty = none), then for
-   each page that has more pages the state that page carried; after UNPREPARED the same one again;
-   nothing after a last page, an error, or a void result *)
-Fixpoint spec_states (auto : bool) (ps : list Z) (s : list (reply R)) : list (list Z) :=
+   each page that has more pages the state that page carried; after UNPREPARED and after a retried
+   failure the same one again; nothing after a last page, a final error, or a void result *)
+Fixpoint spec_states (auto : bool) (n left : nat) (ps : list Z) (s : list reply) : list (list Z) :=
   ps :: match s with
-        | RPage _ more st :: t => if more && auto then spec_states auto st t else []
-        | RUnprep _ :: t => spec_states auto ps t
-        | _ => []
+        | RPage _ more st _ :: t => if more && auto then spec_states auto n n st t else []
+        | RUnprep _ _ :: t => spec_states auto n left ps t
+        | RErr _ _ _ :: t => match left with S l => spec_states auto n l ps t | O => [] end
+        | RVoid _ _ :: _ => []
+        | [] => repeat ps left                        (* every retry of an unanswered request *)
         end.
 
-(* ---- the same, said directly for the two modes (used to state the theorems readably) ---------- *)
+(* ---- the same, said directly for the two modes without retries (used to state theorems readably) *)
 
-(* answers that keep an automatic iteration going *)
-Definition continues (r : reply R) : bool :=
-  match r with RPage _ true _ => true | RUnprep _ => true | _ => false end.
+(* answers that keep an automatic iteration without retry policy going *)
+Definition continues (r : reply) : bool :=
+  match r with RPage _ true _ _ => true | RUnprep _ _ => true | _ => false end.
 
 (* the leading answers that keep it going *)
-Fixpoint leading (s : list (reply R)) : list (reply R) :=
+Fixpoint leading (s : list reply) : list reply :=
   match s with
   | r :: t => if continues r then r :: leading t else []
   | [] => []
   end.
 
 (* manual paging: the first answer that is not UNPREPARED *)
-Fixpoint first_answer (s : list (reply R)) : option (reply R) :=
+Fixpoint first_answer (s : list reply) : option reply :=
   match s with
-  | RUnprep _ :: t => first_answer t
+  | RUnprep _ _ :: t => first_answer t
   | r :: _ => Some r
   | [] => None
   end.
-Fixpoint unpreps (s : list (reply R)) : nat :=
-  match s with RUnprep _ :: t => S (unpreps t) | _ => O end.
+Fixpoint unpreps (s : list reply) : nat :=
+  match s with RUnprep _ _ :: t => S (unpreps t) | _ => O end.
 
 (* has_more pages carry a non-empty paging state (what every real server does) *)
-Definition state_ok (r : reply R) : Prop :=
-  match r with RPage _ true st => st <> [] | _ => True end.
+Definition state_ok (r : reply) : Prop :=
+  match r with RPage _ true st _ => st <> [] | _ => True end.
 
 End Spec.
